@@ -1746,7 +1746,7 @@ impl<'a, E: quiver_core::effects::Effect> Compiler<'a, E> {
             module_cache: &mut *self.module_cache,
             package: &self.current_package,
         };
-        let (bindings, binding_sets, result_type) = pattern::analyze_pattern(
+        let (bindings, binding_sets, result_type, matched_type) = pattern::analyze_pattern(
             &mut env,
             self.program,
             &pattern,
@@ -1894,8 +1894,11 @@ impl<'a, E: quiver_core::effects::Effect> Compiler<'a, E> {
                     self.program,
                 );
             } else {
-                // Standard whole-value narrowing
-                n.record(&value_provenance, value_type, result_type, self.program);
+                // Standard whole-value narrowing. What the pattern covers is the matched type:
+                // `result_type` also carries nil as the "match may fail" marker, and recording
+                // that as covered would remove a genuine nil variant of the value from the
+                // complement seen by later branches.
+                n.record(&value_provenance, value_type, matched_type, self.program);
             }
         }
 
